@@ -23,10 +23,14 @@
    and seconds omitted when zero, the DST offset omitted when it is one hour ahead of standard time, "/time" omitted when
    it is 02:00:00 (the way real zone files are written: C18_grammar_nonvacuous spells CET-1CEST,M3.5.0,M10.5.0/3 and
    <+0330>-3:30<+0430>,J79/24,J263/24); C18_file_grammar composes it with the layout theorem.
-   NOT PROVED here (checked by the differential run against TzSpec on synthesized files and against CPython's zoneinfo on
-   real files): version-1 files (32-bit block), non-empty leap-second / indicator sections.
+   General layout (TzLayout.v, TzWhole.v): C18_file_v1 - a version-1 file (32-bit block, no footer, anything after it
+   ignored); C18_file_whole / C18_file_whole_norule - a version 2/3 file with ANY version-1 block in front and ANY
+   leap-second, standard/wall and UT/local sections (skipped by their declared sizes), the footer in any admissible
+   spelling, or empty: the reader returns exactly the transitions, types and rule that were laid out.
+   So for every file laid out as RFC 8536 prescribes the decode is proved; what the theorems do not say is that real
+   files ARE such layouts (that is what the run on real zone files against CPython's zoneinfo checks).
    The lookup and decode theorems keep the name *_partial for that reason. *)
-From Astro Require Import Base Text CalSpec DateModel TimeModel ApiModel InstantSpec TzModel TzSpec DateProofs TzProofs TzCodec TzFooter TzGrammar.
+From Astro Require Import Base Text CalSpec DateModel TimeModel ApiModel InstantSpec TzModel TzSpec DateProofs TzProofs TzCodec TzFooter TzGrammar TzLayout TzWhole.
 
 Theorem C18_lookup_partial : forall tz t, tz_wf tz -> sorted_trans (tz_trans tz) -> ts_in_range t ->
   MIN_Y + 1 <= utc_year year_of t <= MAX_Y - 1 ->
@@ -62,6 +66,27 @@ Theorem C18_file_grammar : forall v trans types chars sp r, v <> V1 ->
   existsb (fun tr => Z.of_nat (length types) <=? snd tr) trans = false ->
   from_tzif (enc_file v trans types chars ([10] ++ tz_print sp r ++ [10])) = TzOk (mkTz trans types (Some r)).
 Proof. exact from_tzif_file_grammar. Qed.
+Theorem C18_file_v1 : forall c trailing, content_ok V1 c -> Forall (fun tr => in_i32 (fst tr)) (c_trans c) -> Forall in_i32 (c_types c) ->
+  from_tzif (enc_file_v1 c trailing) =
+  (if existsb (fun tr => Z.of_nat (length (c_types c)) <=? snd tr) (c_trans c) || (match c_types c with [] => true | _ => false end)
+   then TzErr else TzOk (mkTz (c_trans c) (c_types c) None)).
+Proof. exact from_tzif_v1. Qed.
+Theorem C18_file_whole : forall v c1 c sp r, v <> V1 -> content_ok V1 c1 -> content_ok v c ->
+  Forall (fun tr => in_i64 (fst tr)) (c_trans c) -> Forall in_i32 (c_types c) ->
+  footer_ok (match v with V3 => true | _ => false end) r -> spelling_ok sp r ->
+  existsb (fun tr => Z.of_nat (length (c_types c)) <=? snd tr) (c_trans c) = false ->
+  from_tzif (enc_file_gen v c1 c ([10] ++ tz_print sp r ++ [10])) = TzOk (mkTz (c_trans c) (c_types c) (Some r)).
+Proof. exact from_tzif_whole. Qed.
+Theorem C18_file_whole_norule : forall v c1 c, v <> V1 -> content_ok V1 c1 -> content_ok v c ->
+  Forall (fun tr => in_i64 (fst tr)) (c_trans c) -> Forall in_i32 (c_types c) -> c_types c <> [] ->
+  existsb (fun tr => Z.of_nat (length (c_types c)) <=? snd tr) (c_trans c) = false ->
+  from_tzif (enc_file_gen v c1 c [10; 10]) = TzOk (mkTz (c_trans c) (c_types c) None).
+Proof. exact from_tzif_whole_norule. Qed.
+Example C18_layout_nonvacuous :
+  let c := mkContent [(-1000000000, 1); (1000000000, 0)] [3600; 7200] [67; 69; 84; 0] (mkSec 1 [0;0;0;0;0;0;0;1] [1; 0] [0; 1]) in
+  and (content_ok V1 c) (from_tzif (enc_file_v1 c [1; 2; 3]) = TzOk (mkTz [(-1000000000, 1); (1000000000, 0)] [3600; 7200] None)).
+Proof. exact layout_v1_example. Qed.
+
 Example C18_grammar_nonvacuous :
   let r := RAlt (mkAlt 3600 (MonthWeekDay 3 5 0) 7200 7200 (MonthWeekDay 10 5 0) 10800) in
   let sp := mkSp (DAlpha [67;69;84]) (mkHms SgMinus 1 0) (DAlpha [67;69;83;84]) None None (Some (mkHms SgNone 1 0)) in
@@ -126,6 +151,9 @@ Print Assumptions C18_footer.
 Print Assumptions C18_file.
 Print Assumptions C18_footer_grammar.
 Print Assumptions C18_file_grammar.
+Print Assumptions C18_file_v1.
+Print Assumptions C18_file_whole.
+Print Assumptions C18_file_whole_norule.
 Print Assumptions C18_scan.
 Print Assumptions C18_rule_date_J.
 Print Assumptions C18_rule_date_N.
